@@ -188,8 +188,15 @@ pub fn placement_general() -> impl Strategy<Value = PlacementRecipe> + Clone {
 /// three enemy men dropped near the castling zone, optionally an own man nearby
 pub fn placement_castle() -> impl Strategy<Value = PlacementRecipe> + Clone {
     let zone_w = prop_oneof![Just(1u8), Just(2), Just(3), Just(5), Just(6), Just(9), Just(10), Just(11), Just(12), Just(13), Just(14), Just(15), Just(17), Just(18), Just(19), Just(20), Just(21), Just(22), Just(23), 0u8..64];
-    (any::<bool>(), zone_w.clone(), proptest::collection::vec((0u8..5, any::<bool>(), prop_oneof![2 => zone_w, 1 => 0u8..64]), 0..5), 1u8..4, any::<bool>(), 0u8..9)
-        .prop_map(|(white, ekz, men, wings, other_rooks, ep)| {
+    // in a fifth of the recipes the ENEMY is to move with its king next to one of the home rooks
+    // (g2 h2 g1 / b2 a2 b1): a king capturing a rook that still carries its castling right
+    let raid = prop_oneof![4 => Just(None), 1 => prop_oneof![Just(14u8), Just(15u8), Just(6u8), Just(9u8), Just(8u8), Just(1u8)].prop_map(Some)];
+    (any::<bool>(), zone_w.clone(), proptest::collection::vec((0u8..5, any::<bool>(), prop_oneof![2 => zone_w, 1 => 0u8..64]), 0..5), 1u8..4, any::<bool>(), 0u8..9, raid)
+        .prop_map(|(white, ekz, men, wings, other_rooks, ep, raid)| {
+            let (ekz, men, wings) = match raid {
+                Some(k) => (k, men.into_iter().take(2).collect::<Vec<_>>(), if k % 8 >= 4 { wings | 1 } else { wings | 2 }),
+                None => (ekz, men, wings),
+            };
             // build for white, then mirror for black
             let flip = |s: u8| if white { s } else { (7 - s / 8) * 8 + s % 8 };
             let mut all: Vec<(u8, bool, u8)> = vec![];
@@ -208,7 +215,7 @@ pub fn placement_castle() -> impl Strategy<Value = PlacementRecipe> + Clone {
                 all.push((k, if own && k % 2 == 0 { white } else { !white }, flip(s)));
             }
             let (wk, bk) = if white { (4u8, if ekz == 4 { 60 } else { ekz }) } else { (if flip(ekz) == 60 { 4 } else { flip(ekz) }, 60u8) };
-            PlacementRecipe { wk, bk, men: all, white_to_move: white, rights: 15, ep }
+            PlacementRecipe { wk, bk, men: all, white_to_move: white != raid.is_some(), rights: 15, ep }
         })
 }
 
